@@ -26,6 +26,7 @@ def reduce_all(name, failing, dbset, target="sqlite", rounds=8):
     """failing: list of (program, kind). Returns list of (reduced program, kind, side)."""
     cur = [(copy.deepcopy(p), k) for p, k in failing]
     sides = [None] * len(cur)
+    dets = [None] * len(cur)
     for rnd in range(rounds):
         batch, owner = [], []
         for idx, (p, k) in enumerate(cur):
@@ -36,13 +37,14 @@ def reduce_all(name, failing, dbset, target="sqlite", rounds=8):
             break
         res = l1.run_and_validate(name + "-reduce", batch, dbset, target=target)
         rej = {pid: what for pid, what, _ in res["rejects"]}
+        rdet = {pid: det for pid, _, det in res["rejects"]}
         progressed = False
         done = set()
         for c, idx in zip(batch, owner):
             if idx in done:
                 continue
             if rej.get(c["id"]) == cur[idx][1]:
-                cur[idx] = (c, cur[idx][1]); sides[idx] = res["side"].get(c["id"]); done.add(idx); progressed = True
+                cur[idx] = (c, cur[idx][1]); sides[idx] = res["side"].get(c["id"]); dets[idx] = rdet.get(c["id"]); done.add(idx); progressed = True
         if not progressed:
             break
-    return [(p, k, s) for (p, k), s in zip(cur, sides)]
+    return [(p, k, s, d) for (p, k), s, d in zip(cur, sides, dets)]
